@@ -225,6 +225,8 @@ func genGeometryStep(r *simrt.Rand, l latticeCfg, tols []float64) Step {
 		return Step{Op: "offset", A: genShape(r, l), W: w, Tol: tols[r.Intn(len(tols))]}
 	case x < 92:
 		return Step{Op: "flatten", A: genShape(r, l), Tol: tols[r.Intn(len(tols))]}
+	case x < 93:
+		return Step{Op: []string{"clip", "simplify", "gridsnap"}[r.Intn(3)], A: genShape(r, l), W: l.cell * (0.5 + float64(r.Intn(3))), Tol: []float64{0.1, 0.5, 2}[r.Intn(3)]}
 	case x < 96:
 		n := 1 + r.Intn(3)
 		d := make([]float64, n)
@@ -305,6 +307,9 @@ func genDrawing(r *simrt.Rand, l latticeCfg, nfonts int) *Drawing {
 		} else {
 			it.Kind = "path"
 			it.Shape = genShape(r, l)
+			if r.Bool(0.35) {
+				it.Paint = 1 + r.Intn(4)
+			}
 			if r.Bool(0.6) {
 				it.SW = []float64{0.2, 0.5, 1.5}[r.Intn(3)]
 			}
@@ -337,6 +342,7 @@ var Profiles = []struct {
 	{"text", 14},
 	{"render", 14},
 	{"mixed", 14},
+	{"syscache", 6},
 }
 
 // GenRun derives the complete, explicit specification of run #run of a batch.
@@ -400,7 +406,15 @@ func GenRun(verifSeed uint64, run int, tier string, profiles []string) *RunSpec 
 
 	// font table for this run
 	nf := 0
-	if spec.Profile != "geometry" {
+	if spec.Profile == "syscache" {
+		if ntasks < 2 {
+			ntasks = 2
+		}
+		if ntasks > 4 {
+			ntasks = 4
+		}
+	}
+	if spec.Profile != "geometry" && spec.Profile != "syscache" {
 		nf = 1 + cfgR.Intn(3)
 		perm := cfgR.Perm(len(fontTable))
 		for i := 0; i < nf; i++ {
@@ -425,6 +439,15 @@ func GenRun(verifSeed uint64, run int, tier string, profiles []string) *RunSpec 
 					st = genFontStep(wl, nf)
 				} else {
 					st = genTextStep(wl, nf)
+				}
+			case "syscache":
+				switch y := wl.Intn(20); {
+				case y < 9:
+					st = Step{Op: "sysfind", Font: wl.Intn(5), Style: wl.Intn(2)}
+				case y < 13:
+					st = Step{Op: "sysload", Font: wl.Intn(5), Style: 0}
+				default:
+					st = Step{Op: "syscache", Opt: 1 + wl.Intn(2)}
 				}
 			case "text":
 				st = genTextStep(wl, nf)
